@@ -82,7 +82,25 @@ existed for their property ("do not repeat them, look at other functions and oth
 | C15-4 | no require string designated a directory above the requiring file | `..`, `../..`, `../.` from files inside `m/`, with every subset of `m.luau`, `m.lua`, `m/init.*` present |
 | C17-3 | preserved arguments were literals or calls, never effectful non-calls | `assert(h.f0, ext(), h[2])` on an object whose `__index` logs |
 
-After strengthening: 80 of 80 caught.  The same caveat as for every sampled monitor applies: a seeded change is caught when the workload holds the shape it needs; the two rounds show that about a third of independently chosen shapes were missing at first, so more remain.  A change being caught by the check of *its* property is the minimum asked; several are also visible to neighbouring checks (the scope-visitor change of C01-2 / C09-2 to C01, C09, C16; the generator newline-counting change of C03-1 / C04-2 to C03 and C04; the string-form change of C02-2 / C14-1 to C02, C13, C14), which was not measured systematically.
+After strengthening: 80 of 80 caught.
+
+**Third round** (`<property>-5`, `<property>-6`; ten properties: C01, C02, C04, C05, C06, C10, C11, C12, C15, C17): first pass 11 of 20 caught.  The nine misses:
+
+| missed | why the check was blind | strengthening |
+|---|---|---|
+| C02-5 | the statement pairs never ended with a type instantiation, and a second statement starting with `(` was not separated by `;` in the source | first statements ending in `f<<T>>`, `f()`, `a.b`, `(a)`, `a:m()` ...; second statements `(g)()`, `(t).x = 1`, `(t)[1] += 1`, `(g):m()` (written with `;` in the source, which the generators have to keep) |
+| C02-6 | no `const` declaration with fewer values than names was built | the statement-pair block builds one (the generators pad it with `nil`) |
+| C05-5 | bundles were only built from in-memory files, where nothing is a directory | one random project in ten is written to a real scratch directory |
+| C05-6 | no project used a `.luaurc`; and a failure that depends on an earlier case in the same process was dropped as "not reproduced" | `.luaurc` alias with a target that differs between projects; **the driver now replays an unreproduced candidate together with the (up to 12) cases the same worker generated before it**, in a fresh process, and reports it as `...@after-earlier-cases` with that sequence as the replay; three or more candidates that reproduce in neither way make the run inconclusive (exit 2) instead of silent |
+| C06-5 | `//` never occurred twice with `math` shadowed only at the second occurrence | a floor division at top level followed by one under a parameter / local called `math` |
+| C11-5 | no tree held nested `.luaurc` files (order dependence of the alias cache) | hand-written scenario with three nested `.luaurc`, six file orders, both back ends (caught through "batch differs from the file alone"; before the sequence replay existed it was hit or miss) |
+| C12-5 | no generated string long enough for the bracket form held closers of two levels | 128 programs with every combination of `]]`, `]=]`, `]==]`, `]===]` and endings `]`, `]=`, `]]` (found a real defect on the way: a content ending with `]=` closes `[=[ .. ]=]` early; repaired) |
+| C17-5 | `profilebegin` / `assert` only existed on `debug`, on locals and as globals | the same field names on other global tables (`Profiler.profilebegin(..)`) |
+| C17-6 | removed calls never used the table-call syntax | `assert { [ext()] = true, f = ext() }`, `debug.profilebegin { .. }` with effects in keys and values |
+
+After strengthening: 100 of 100 caught.  The three rounds say the same thing: every monitor catches what its workload contains, roughly 40 % of independently
+chosen shapes were missing at the time they were tried, and the misses cluster in input *shapes* (a rule option, a position, a file layout) rather than in the oracles — the only
+oracle-level corrections were the too-broad tolerances (C10, C15), the reference run trusted for what counts as faulty (C11) and the confirmation step that dropped history-dependent failures.  The same caveat as for every sampled monitor applies: a seeded change is caught when the workload holds the shape it needs; the two rounds show that about a third of independently chosen shapes were missing at first, so more remain.  A change being caught by the check of *its* property is the minimum asked; several are also visible to neighbouring checks (the scope-visitor change of C01-2 / C09-2 to C01, C09, C16; the generator newline-counting change of C03-1 / C04-2 to C03 and C04; the string-form change of C02-2 / C14-1 to C02, C13, C14), which was not measured systematically.
 """
 s=open('DESIGN.md').read()
 a=s.index('<!-- SEEDED:BEGIN -->')+len('<!-- SEEDED:BEGIN -->'); b=s.index('<!-- SEEDED:END -->')
